@@ -137,7 +137,7 @@ def gen_flags(rng, focus, caps):
     if caps.get("xattr") and (rng.chance(1, 3) or focus == "C17"):
         o["xattrs"] = True
         if rng.chance(1, 2): f.append("-X"); c["x"] = 1
-    if caps.get("hardlink") and rng.chance(1, 5):
+    if caps.get("hardlink") and rng.chance(1, 5) and focus not in ("C02", "C17"):
         o["hardlinks"] = True
         if rng.chance(2, 3): f.append("-H"); c["h"] = 1
     if rng.chance(1, 6):
@@ -151,7 +151,7 @@ def gen_flags(rng, focus, caps):
             excl.append(rng.pick(["k.log", "a", "sub/", "logs/", "data", "deep/", "c.txt"]))
         for e in excl: f += ["--exclude", e]
     j = rng.pick([1, 2, 4, 10]); f += ["-j", str(j)]
-    if rng.chance(1, 3):
+    if rng.chance(1, 3) or focus == "C05":
         o["big"] = True
         env.update({"SY_VERIF_DELTA_THRESHOLD": "4096", "SY_VERIF_BLOCK_SIZE": "1024"})
         if rng.chance(1, 2): env["SY_VERIF_FORCE_COW"] = "1"
@@ -232,6 +232,8 @@ def run(tier="quick", seed=1, work=None, replay=None, focus="C01", ncases=None):
         for ci in range(n):
             case_dir = os.path.join(work, f"c{ci}")
             src_root, dst_root, out_root = (os.path.join(case_dir, x) for x in ("src", "dst", "out"))
+            if caps.get("hardlink") and focus in ("C03", "C01", "C19", "C13") and ci % 12 == 5:
+                broken_link_history(rep, contents, ci, seed, work, rng)
             if focus == "C07" and ci % 2 == 0:
                 src, dst, flags, cfg, env, excl, cls = gen_c07_case(rng); rep.tag("c07." + cls)
             else:
@@ -250,7 +252,19 @@ def run(tier="quick", seed=1, work=None, replay=None, focus="C01", ncases=None):
             os.makedirs(out_root); open(os.path.join(out_root, "sentinel.txt"), "wb").write(b"sentinel")
             os.utime(os.path.join(out_root, "sentinel.txt"), ns=(BASE_T * 10**9, BASE_T * 10**9))
             materialize(src_root, src, subst); materialize(dst_root, dst, subst)
-            one_case(rep, drv, contents, focus, ci, seed, case_dir, src_root, dst_root, out_root, flags, cfg, env, excl)
+            if focus == "C05":
+                parallel_twin(rep, contents, ci, seed, case_dir, src_root, dst_root, flags, cfg, env)
+            res = one_case(rep, drv, contents, focus, ci, seed, case_dir, src_root, dst_root, out_root, flags, cfg, env, excl)
+            if res and res["rc"] == 0 and not cfg.get("dry") and (focus in ("C03", "C17", "C02") or ci % 5 == 0):
+                for k in range(1, 3 if focus == "C03" else 2):
+                    rerun_fixed_point(rep, drv, contents, res, k, case_dir, src_root, dst_root, flags, cfg, env, excl)
+            if res and focus in ("C02", "C17"):
+                for h in range(2):
+                    edit_source(rng, src_root, out_root)
+                    flags2 = list(flags)
+                    res = one_case(rep, drv, contents, focus, ci, seed, case_dir, src_root, dst_root, out_root, flags2, cfg, env, excl)
+                    if not res: break
+                    rep.tag("history.step")
             shutil.rmtree(case_dir, ignore_errors=True)
     finally:
         drv.close()
@@ -266,9 +280,9 @@ def one_case(rep, drv, contents, focus, ci, seed, case_dir, src_root, dst_root, 
     desc = {"case": ci, "seed": seed, "flags": flags, "env": env, "src": {r: (n["k"], n.get("size"), n.get("text")) for r, n in sorted(pre_src.items())},
             "dst": {r: (n["k"], n.get("size"), n.get("text")) for r, n in sorted(pre_dst.items())}}
     if model is None:
-        rep.disagree({"what": "model returned bad-op", "request": req[:400], **desc}); return
+        rep.disagree({"what": "model returned bad-op", "request": req[:400], **desc}); return None
     if focus == "C08":
-        if not dry_twin(rep, drv, contents, desc, case_dir, src_root, dst_root, out_root, flags, cfg, env, order, exb, pre_src, pre_dst, pre_out): return
+        if not dry_twin(rep, drv, contents, desc, case_dir, src_root, dst_root, out_root, flags, cfg, env, order, exb, pre_src, pre_dst, pre_out): return None
     rc, out, err = run_sy([src_root, dst_root, "--json"] + flags, case_dir, env_extra=env)
     post_src = snapshot(src_root, contents); post_dst = snapshot(dst_root, contents); post_out = snapshot(out_root, contents)
     ev, bad = events_of(out)
@@ -307,6 +321,121 @@ def one_case(rep, drv, contents, focus, ci, seed, case_dir, src_root, dst_root, 
     # ---------------- O: oracles from the property texts ----------------
     oracles(rep, focus, desc, rc, ev, bad, summ, real_events, real_errors, pre_src, post_src, pre_dst, post_dst, pre_out, post_out,
             flags, cfg, excl, exb, order, src_root, dst_root, case_dir, env, contents, err)
+    return {"rc": rc, "post_dst": post_dst, "summ": summ, "events": real_events, "desc": desc}
+
+def rerun_fixed_point(rep, drv, contents, res, k, case_dir, src_root, dst_root, flags, cfg, env, excl):
+    """C03: immediately re-running the same command after a success changes nothing (k-th re-run)."""
+    desc = dict(res["desc"]); desc["rerun"] = k
+    pre = snapshot(dst_root, contents)
+    rc, out, err = run_sy([src_root, dst_root, "--json"] + flags, case_dir, env_extra=env)
+    post = snapshot(dst_root, contents)
+    ev, bad = parse_json_lines(out)
+    summ = next((e for e in ev if e.get("type") == "summary"), None)
+    rep.tag("c03.rerun")
+    if rc != 0 or summ is None:
+        rep.oracle_fail("C03/rerun-failed", f"re-run after a successful sync exits {rc}: {err[-200:]}", desc); return
+    fp0, fp1 = tree_fingerprint(pre), tree_fingerprint(post)
+    if cfg.get("cmp") == "i":
+        # --ignore-times re-transfers every file by definition: only the unchanged-destination half applies (content, link text)
+        strip = lambda fp: {r: (v[0], v[1], v[2]) if v[0] == "f" else v for r, v in fp.items()}
+        if strip(fp0) != strip(fp1): rep.oracle_fail("C03/rerun-changed-destination-content", "re-run with --ignore-times changed destination content", desc)
+        return
+    if summ["files_created"] or summ["files_updated"] or summ["files_deleted"] or summ["bytes_transferred"]:
+        acts = sorted((e["type"], os.path.relpath(e["path"], dst_root)) for e in ev if e.get("type") in ("create", "update", "delete"))
+        rep.oracle_fail("C03/rerun-not-a-noop", f"re-run reports created={summ['files_created']} updated={summ['files_updated']} deleted={summ['files_deleted']} bytes={summ['bytes_transferred']}: {acts[:4]}", desc)
+    if fp0 != fp1:
+        ch = sorted(r for r in set(fp0) | set(fp1) if fp0.get(r) != fp1.get(r))
+        rep.oracle_fail("C03/rerun-changed-destination", f"re-run changed destination entries (content/mtime/link/inode): {ch[:4]}", desc)
+
+def edit_source(rng, src_root, out_root):
+    """history step: retarget a link, replace a link by a file and back, modify / add a file"""
+    entries = []
+    for dp, dn, fn in os.walk(src_root):
+        for name in dn + fn: entries.append(os.path.join(dp, name))
+    links = [p for p in entries if os.path.islink(p)]
+    files = [p for p in entries if os.path.isfile(p) and not os.path.islink(p)]
+    k = rng.below(5)
+    t = BASE_T * 10**9 + rng.range(2000, 3000) * 10**9
+    if k == 0 and links:
+        p = rng.pick(links); os.unlink(p); os.symlink(rng.pick(["nowhere2", os.path.join(out_root, "sentinel.txt"), os.path.basename(rng.pick(files)) if files else "x"]), p)
+    elif k == 1 and links:
+        p = rng.pick(links); os.unlink(p)
+        with open(p, "wb") as f: f.write(b"now a regular file")
+        os.utime(p, ns=(t, t))
+    elif k == 2 and files:
+        p = rng.pick(files); os.unlink(p); os.symlink(rng.pick(["nowhere", os.path.join(src_root, os.path.relpath(rng.pick(files), src_root))]), p)
+    elif k == 3 and files:
+        p = rng.pick(files)
+        with open(p, "ab") as f: f.write(b"+edit")
+        os.utime(p, ns=(t, t))
+    else:
+        p = os.path.join(src_root, f"added{rng.below(100)}")
+        if not os.path.lexists(p):
+            with open(p, "wb") as f: f.write(b"added")
+            os.utime(p, ns=(t, t))
+    for dp, dn, fn in os.walk(src_root, topdown=False): os.utime(dp, ns=(BASE_T * 10**9, BASE_T * 10**9))
+
+def parallel_twin(rep, contents, ci, seed, case_dir, src_root, dst_root, flags, cfg, env):
+    """C05: the same inputs handled with one worker and with N workers give the same destination."""
+    twin = case_dir + "-twin"
+    shutil.copytree(case_dir, twin, symlinks=True)
+    # copytree does not keep hard links or directory mtimes; restore file mtimes are kept by copy2
+    f1 = [x for x in flags]; i = f1.index("-j"); f1[i + 1] = "1"
+    fn = [x for x in flags]; fn[i + 1] = "8"
+    tsrc, tdst = os.path.join(twin, "src"), os.path.join(twin, "dst")
+    rc1, out1, err1 = run_sy([tsrc, tdst, "--json"] + f1, twin, env_extra=env)
+    snap1 = snapshot(tdst, contents)
+    shutil.rmtree(twin, ignore_errors=True)
+    shutil.copytree(case_dir, twin, symlinks=True)
+    rcn, outn, errn = run_sy([tsrc, tdst, "--json"] + fn, twin, env_extra=env)
+    snapn = snapshot(tdst, contents)
+    shutil.rmtree(twin, ignore_errors=True)
+    desc = {"case": ci, "seed": seed, "flags": flags, "env": env}
+    rep.tag("c05.twin")
+    strip = lambda snap: {r: (v[0], v[1], v[2], v[3], v[4]) if v[0] == "f" else v for r, v in tree_fingerprint(snap).items()}
+    if rc1 != rcn: rep.oracle_fail("C05/exit-depends-on-j", f"-j1 exits {rc1}, -j8 exits {rcn}", desc)
+    elif strip(snap1) != strip(snapn):
+        ch = sorted(r for r in set(snap1) | set(snapn) if strip(snap1).get(r) != strip(snapn).get(r))
+        rep.oracle_fail("C05/result-depends-on-j", f"destination after -j1 and after -j8 differ at {ch[:4]}", desc)
+    elif ino_classes(snap1) != ino_classes(snapn) and rc1 == 0:
+        rep.oracle_fail("C05/link-structure-depends-on-j", f"hard-link classes differ: -j1 {ino_classes(snap1)} -j8 {ino_classes(snapn)}", desc)
+
+def broken_link_history(rep, contents, ci, seed, work, rng):
+    """O-only history (found by the C02/C17 histories): two source names of one inode are synced with -H, then the
+    link is broken in the source. Each destination name must end with its own source's content, the untouched name must
+    not change, and a further re-run must be a no-op."""
+    case_dir = os.path.join(work, f"bl{ci}")
+    src_root, dst_root = os.path.join(case_dir, "src"), os.path.join(case_dir, "dst")
+    da, db = rng.bytes(rng.range(1, 3000)), rng.bytes(rng.range(1, 3000))
+    src = {"a": F(da, link=1), "sub": D(), "sub/b": F(da, link=1), "c": F(b"other")}
+    materialize(src_root, src); os.makedirs(dst_root)
+    flags = ["-H", "-j", str(rng.pick([1, 4]))] + (["--checksum"] if rng.chance(1, 3) else [])
+    desc = {"case": ci, "seed": seed, "flags": flags, "scenario": "link a = sub/b synced with -H, then sub/b replaced by an independent file"}
+    rc, out, err = run_sy([src_root, dst_root, "--json"] + flags, case_dir)
+    victim = rng.pick(["a", "sub/b"])
+    p = os.path.join(src_root, victim); os.unlink(p)
+    with open(p, "wb") as f: f.write(db)
+    t = BASE_T * 10**9 + 5000 * 10**9; os.utime(p, ns=(t, t))
+    pre = snapshot(dst_root, contents)
+    rc, out, err = run_sy([src_root, dst_root, "--json"] + flags, case_dir)
+    post = snapshot(dst_root, contents); s = snapshot(src_root, contents)
+    ev, bad = parse_json_lines(out)
+    rep.tag("c03.broken-link-history"); rep.case(("broken-link", da, db, tuple(flags), victim), True)
+    if rc == 0:
+        for rel in ("a", "sub/b"):
+            if post.get(rel, {}).get("cid") != s[rel]["cid"]:
+                rep.oracle_fail("C01/unshared-hardlink-written-through", f"after breaking the source link, destination {rel} does not hold its source's content although the run exited 0", desc)
+        for e in ev:
+            if e.get("type") == "skip":
+                rel = os.path.relpath(e["path"], dst_root)
+                if tree_fingerprint(pre).get(rel) != tree_fingerprint(post).get(rel):
+                    rep.oracle_fail("C19/skip-event-but-changed", f"skip event for {rel} but the entry changed (written through a destination hard link)", desc)
+        rc2, out2, err2 = run_sy([src_root, dst_root, "--json"] + flags, case_dir)
+        ev2, _ = parse_json_lines(out2)
+        summ = next((e for e in ev2 if e.get("type") == "summary"), None)
+        if summ and (summ["files_updated"] or summ["files_created"]):
+            rep.oracle_fail("C03/write-through-unshared-dst-hardlink", f"re-run after the broken-link update still updates {summ['files_updated']} file(s): the two names flip on every run", desc)
+    shutil.rmtree(case_dir, ignore_errors=True)
 
 def home_listing(case_dir):
     out = {}
